@@ -306,6 +306,60 @@ type EnumCtx struct {
 	Tier      string
 	n         int64
 	Replaying bool
+	// ReplayChoices is the recorded schedule when a sub-scenario finding is replayed.
+	ReplayChoices []int
+	Trace         []string
+}
+
+// Explore runs a complete (small) schedule exploration of sub inside an
+// enumeration: thousands of tiny closed drivers can then share a few worker
+// processes. desc (JSON-able) must allow the harness to rebuild sub for replay.
+func (c *EnumCtx) Explore(sub *Scenario, desc any) {
+	r := exploreScenario(sub, 0, 1, c.deadline, 0)
+	c.res.Cases++
+	c.res.Execs += r.Execs
+	c.res.Steps += r.Steps
+	c.res.States += r.States
+	c.res.Pruned += r.Pruned
+	c.res.StepCapped += r.StepCapped
+	if r.TimedOut {
+		c.res.TimedOut = true
+	}
+	for k := range r.Outcomes {
+		key := sub.Name + "/" + k
+		if _, ok := c.distinct[key]; !ok {
+			c.distinct[key] = struct{}{}
+			c.res.Nontrivial++
+		}
+	}
+	if len(c.res.Samples) < 3 && len(r.Samples) > 0 && (c.res.Cases == 1 || c.res.Cases%97 == 0) {
+		c.res.Samples = append(c.res.Samples, r.Samples[0])
+	}
+	for _, f := range r.Findings {
+		c.res.NFindings++
+		if old, ok := c.byKey[f.Key]; ok && old.Cost <= f.Cost {
+			continue
+		}
+		b, _ := json.Marshal(desc)
+		g := f
+		g.Scen = c.res.Scenario
+		g.Case = b
+		g.Msg = "[" + sub.Name + "] " + f.Msg
+		c.byKey[f.Key] = &g
+	}
+}
+
+// ReplaySub re-executes the recorded schedule of a sub-scenario finding.
+func (c *EnumCtx) ReplaySub(sub *Scenario) {
+	fs, trace, out := ReplayOnce(sub, c.ReplayChoices)
+	c.Trace = append(trace, "outcome: "+out)
+	for _, f := range fs {
+		g := f
+		g.Msg = "[" + sub.Name + "] " + f.Msg
+		if _, ok := c.byKey[f.Key]; !ok {
+			c.byKey[f.Key] = &g
+		}
+	}
 }
 
 // Mine implements round-robin sharding of an enumeration: call once per case.
@@ -791,6 +845,17 @@ func confirmAndWrite(spec Spec, scs []*Scenario, f Finding) (string, bool) {
 			rf.Trace = trace
 		}
 	}
+	if s != nil && s.Body == nil && s.Replay != nil && len(f.Case) > 0 {
+		for i := 0; i < 3; i++ {
+			res := &Result{Scenario: s.Name, Outcomes: map[string]int{}}
+			c := &EnumCtx{res: res, deadline: time.Now().Add(time.Hour), byKey: map[string]*Finding{}, distinct: map[string]struct{}{}, Replaying: true, ReplayChoices: f.Choices}
+			s.Replay(c, f.Case)
+			if _, ok := c.byKey[f.Key]; !ok {
+				return "", false
+			}
+			rf.Trace = c.Trace
+		}
+	}
 	dir := filepath.Join(verifDir(), "replays", spec.Property)
 	os.MkdirAll(dir, 0o755)
 	path := filepath.Join(dir, sanitize(f.Key)+".json")
@@ -851,8 +916,11 @@ func doReplay(spec Spec, path string) int {
 		}
 		if s.Replay != nil {
 			res := &Result{Scenario: s.Name, Outcomes: map[string]int{}}
-			c := &EnumCtx{res: res, deadline: time.Now().Add(time.Hour), byKey: map[string]*Finding{}, distinct: map[string]struct{}{}, Tier: tier, Replaying: true}
+			c := &EnumCtx{res: res, deadline: time.Now().Add(time.Hour), byKey: map[string]*Finding{}, distinct: map[string]struct{}{}, Tier: tier, Replaying: true, ReplayChoices: rf.Choices}
 			s.Replay(c, rf.Case)
+			for _, l := range c.Trace {
+				fmt.Println(l)
+			}
 			for _, f := range c.byKey {
 				fmt.Printf("FINDING key=%s %s\n", f.Key, f.Msg)
 			}
